@@ -6,7 +6,7 @@ import json, os, subprocess, sys, time
 V = os.path.dirname(os.path.dirname(os.path.abspath(__file__)))
 VH = f"{V}/harness/target/release/vh"
 PROPS = sys.argv[1:] or ["C01", "C03", "C04", "C06", "C07", "C08", "C09", "C10", "C11", "C12", "C18", "C19", "C13"]
-UNIV = {"fix": None, "exh": None, "gram": 1_000_000, "imp": 200_000, "nl": 300_000, "mut": 600_000}
+UNIV = {"fix": None, "exh": None, "gram": 1_000_000, "imp": 200_000, "nl": 300_000, "mut": 600_000, "corp": None}
 path = f"{V}/known-indices.json"
 try:
     known = {}
@@ -19,6 +19,14 @@ except Exception:
     known = {}
 env = dict(os.environ)
 env.pop("VH_KNOWN", None)
+# the universes are validated on the unchanged tree: /repo must be clean, and the harness is rebuilt
+# from it first (a binary left over from a seeded-change run would poison the residue)
+dirty = subprocess.run(["git", "-C", "/repo", "status", "--porcelain"], capture_output=True, text=True).stdout.strip()
+if dirty:
+    sys.exit("revalidate: /repo has uncommitted changes:\n" + dirty)
+b = subprocess.run(["cargo", "build", "--release", "--offline"], cwd=f"{V}/harness", env=dict(env, CARGO_NET_OFFLINE="true"), capture_output=True, text=True)
+if b.returncode != 0:
+    sys.exit("revalidate: harness does not build:\n" + b.stderr[-2000:])
 for p in PROPS:
     t0 = time.time()
     rows = []
